@@ -19,7 +19,8 @@ LEVEL = "exploration"
 RULE = ("Hypothesis-generated worlds: 1-4 concept graphs (0-8 nodes, cycles, self-loops, parallel edges, negative/"
         "zero weights, unknown relations, tags), input text biased to labels of nodes with out-edges, T1 config over "
         "its own surface (decay modes, multipliers, radius/iter/layer/relax caps in {0,1,tight,loose,None}, node and "
-        "queue budgets, slice caps, perf caps on/off) or a validated config. Non-trivial = some seed has an out-edge "
+        "queue budgets, slice caps, perf caps on/off) or a validated config; sub-check seq: 2-4 calls on one state with the "
+        "stage cache ON and slice caps changing between calls (non-trivial = a cache hit and differing caps). Non-trivial = some seed has an out-edge "
         "AND some cap binds (a *_hits counter > 0, pops == budget, or relax cap reached). Distinct = digest of "
         "(graphs, text, config, slice caps).")
 ASSUMPTIONS = ["reference propagator in harness/models/t1.py written from the documented rule (float64, same "
@@ -305,6 +306,86 @@ def check_case(case, rec=None):
                          "result": [d["id"] for d in deltas], "metrics": {k: m[k] for k in COUNTERS}} if nt else None)
 
 
+# ---------------------------------------------------------------- sequences on one engine state (stage cache ON)
+
+@st.composite
+def seq_cases(draw):
+    """2-4 calls on ONE state with the T1 result cache enabled: same graphs, texts from a small pool, slice caps that
+    change from call to call.  Whatever the stage keeps between calls, every single call must still obey the rule."""
+    base = draw(cases())
+    if base["validated"] is not None:
+        base["validated"]["t1"]["cache"] = {"enabled": True, "max_entries": draw(st.sampled_from([1, 2, 8])), "ttl_s": 300}
+    else:
+        base["t1"]["cache"] = draw(st.sampled_from([{"enabled": True}, {"enabled": True, "max_entries": 2}]))
+    caps_pool = [None, {}, {"t1_pops": 1}, {"t1_pops": 2, "t1_iters": 1}, {"t1_iters": 0}, {"t1_iters": 2}, {"t1_pops": 10000, "t1_iters": 50},
+                 {"t1_pops": 0}]
+    texts = [base["text"], base["text"], draw(world.texts_for(base["graphs"]))]
+    calls = [{"text": draw(st.sampled_from(texts)), "slice": draw(st.sampled_from(caps_pool))} for _ in range(draw(st.integers(2, 4)))]
+    base["calls"] = calls
+    return base
+
+
+def check_seq(case, rec=None):
+    from clematis.engine.stages.t1 import t1_propagate
+
+    world.reset_engine_globals()
+    cfg = _cfg_of(case)
+    t1cfg = dict(cfg["t1"])
+    store = world.build_store({g: case["graphs"][g] for g in case["order"]})
+    state = {"store": store, "active_graphs": list(case["order"])}
+    caps_on = perf_caps_active(case)
+    hits = 0
+    differing_caps = len({json_key(c["slice"]) for c in case["calls"]}) > 1
+    for j, call in enumerate(case["calls"], 1):
+        ctx = SimpleNamespace(cfg=cfg, config=cfg, agent_id="A", turn_id=j, now_ms=world.NOW_MS)
+        if call["slice"] is not None:
+            ctx.slice_budgets = dict(call["slice"])
+        before = world.store_digest(store)
+        try:
+            res = t1_propagate(ctx, state, call["text"])
+        except Exception as e:
+            raise Violation(f"call {j}: t1_propagate raised {type(e).__name__}: {e}", case, "raises")
+        if world.store_digest(store) != before:
+            raise Violation(f"call {j}: t1_propagate modified the graph store", case, "store-modified")
+        hits += int(res.metrics.get("cache_hits", 0) or 0)
+        qb, layers = ref.effective_caps(t1cfg, call["slice"])
+        want_ids, want_m = [], dict(ref.ZERO)
+        n_graphs = len(case["order"])
+        for gid in case["order"]:
+            ids, m = ref.ref_one_graph(case["graphs"][gid], call["text"], t1cfg, call["slice"])
+            want_ids += ids
+            for k in want_m:
+                want_m[k] += m[k]
+        got_ids = [d["id"] for d in res.graph_deltas]
+        mm = res.metrics
+        # budgets (aggregate over graphs) hold whatever was cached
+        if mm["pops"] > qb * n_graphs:
+            raise Violation(f"call {j} (slice {call['slice']}): pops={mm['pops']} exceeds {n_graphs} x budget {qb}", case, "seq-pops-budget")
+        if mm["iters"] > layers * n_graphs:
+            raise Violation(f"call {j} (slice {call['slice']}): iters={mm['iters']} exceeds {n_graphs} x layer cap {layers}", case, "seq-iters-budget")
+        if not caps_on:
+            if got_ids != want_ids:
+                raise Violation(f"call {j} (text {call['text']!r}, slice {call['slice']}): touched {got_ids}, documented rule gives "
+                                f"{want_ids}", case, "seq-ref-ids")
+            got_m = {k: mm[k] for k in COUNTERS}
+            if got_m != want_m:
+                raise Violation(f"call {j} (slice {call['slice']}): counters {got_m}, documented rule gives {want_m}", case, "seq-ref-counters")
+    if rec is not None:
+        nt = hits > 0 and differing_caps
+        rec.case(nontrivial=nt, dig=digest(case) if nt else None,
+                 labels=[f"calls={len(case['calls'])}"] + (["cache_hit"] if hits else []) + (["caps_differ"] if differing_caps else []),
+                 sample={"calls": case["calls"], "text": case["text"], "t1": case["t1"] or case["validated"]} if nt else None)
+
+
+def json_key(x):
+    import json
+    return json.dumps(x, sort_keys=True)
+
+
+def sub_seq(rec, seed, shard, nshards, n=150, shrink=True):
+    run_hypothesis(rec, seed, seq_cases(), lambda c: check_seq(c, rec), max_examples=n, shrink=shrink, name="seq")
+
+
 def sub_rule(rec, seed, shard, nshards, n=500, shrink=True):
     run_hypothesis(rec, seed, cases(), lambda c: check_case(c, rec), max_examples=n, shrink=shrink, name="rule")
 
@@ -314,6 +395,12 @@ def replay_case(case):
     check_case(_fix_floats(case), None)
 
 
+def replay_seq(case):
+    from checks.c03 import _fix_floats
+    check_seq(_fix_floats(case), None)
+
+
 SUBCHECKS = [
+    Sub("seq", sub_seq, quick={"n": 120}, thorough={"n": 2500}, shards_quick=4, shards_thorough=8, replay=replay_seq),
     Sub("rule", sub_rule, quick={"n": 150}, thorough={"n": 4000}, shards_quick=8, shards_thorough=16, replay=replay_case),
 ]
